@@ -8,7 +8,9 @@ import refproto as rp
 import simnet
 from refserver import RefServer
 
-EXTRA_PROPS = ['C11Wire']
+EXTRA_PROPS = ['C11Wire', 'C11Errors']
+
+EXTRACT = ['versions', 'ids', 'gen.c11errors']
 
 RULE = ("server packet histories (length 1..400, crossing the 50-read/300-write batch limits) "
         "interleaving keep-alives (ids at every VarInt/Long boundary), position-and-look, unknown-id "
